@@ -191,6 +191,8 @@ def run(tier):
     # ---- everything that takes a start time, scheduled for a clock tick (Gen_Sched.tla / P_C05S.tla)
     scfg = write_cfg("Gen_Sched.cfg", "SPECIFICATION Spec\nINVARIANT Dump\nCHECK_DEADLOCK FALSE\n")
     sscen = [dict(b[0], mode="sched", src="tlc-product") for b in tlc_generate("Gen_Sched.tla", scfg, "bfs", timeout=600, tag="c05s")]
+    # (and a clock + a sound scheduled on it, both created while the audio thread is before the n-th drain of its rings)
+    sscen += [{"mode": "pickup", "what": "sound", "w": 1, "n": n, "src": "directed-pickup"} for n in range(1, 10)]
     ssp, stp = os.path.join(OUT, "c05", "sched_scen.ndjson"), os.path.join(OUT, "c05", "sched_trace.ndjson")
     write_ndjson(ssp, sscen)
     run_kv("c05", ssp, stp)
